@@ -155,3 +155,9 @@ package kmip
 //@ func (*PrivateKey).CryptoPrivateKey
 //@   requires key != nil
 //@   ensures r1 == nil && typeis(r0, *ecdsa.PrivateKey) ==> scalarFits(dyn(r0, *ecdsa.PrivateKey))
+
+// an unknown operation's payload keeps the operation it was created for (C06: "that payload reports the same
+// operation"): decoding fills the opaque fields only
+//@ func (*UnknownPayload).TagDecodeTTLV
+//@   requires v != nil && d != nil
+//@   ensures v.opType == old(v.opType)
